@@ -1118,7 +1118,8 @@ func handleZRANGE(params internal.HandlerFuncParams) ([]byte, error) {
 		return []byte("*0\r\n"), nil
 	}
 	if count < 0 {
-		count = set.Cardinality() - offset
+		// A negative count means "up to the last member": count is the last position of the window.
+		count = set.Cardinality() - 1
 	}
 
 	members := set.GetAll()
@@ -1251,7 +1252,8 @@ func handleZRANGESTORE(params internal.HandlerFuncParams) ([]byte, error) {
 		return []byte(":0\r\n"), nil
 	}
 	if count < 0 {
-		count = set.Cardinality() - offset
+		// A negative count means "up to the last member": count is the last position of the window.
+		count = set.Cardinality() - 1
 	}
 
 	members := set.GetAll()
